@@ -55,6 +55,7 @@ func (c14) Gen(rng *rand.Rand, tier string, i int) *sim.Scenario {
 			}
 			sc.Calls = append(sc.Calls, c)
 		}
+		sc.Knobs.FreeTimestamps = chance(rng, 0.4) // SACK targets with TCP timestamps, their clock ticking
 		if chance(rng, 0.25) {
 			// a send fails in mid-run: the sender's error path runs while the receiver is looking up
 			// replies to the probes that did leave
